@@ -1,5 +1,5 @@
 // MIR side: CFGs with resolved callees and assert kinds; constant decoding by layout.
-use crate::hirx::{expn_str, span_str};
+use crate::hirx::{expn_str, span_full, span_str};
 use crate::json::J;
 use rustc_abi::Size;
 use rustc_hir::def::DefKind;
@@ -88,6 +88,7 @@ fn body_json<'tcx>(tcx: TyCtxt<'tcx>, did: rustc_hir::def_id::DefId, body: &mir:
         let term = data.terminator();
         let mut t = J::obj();
         t.put("sp", J::s(&span_str(tcx, term.source_info.span)));
+        t.put("spx", J::s(&span_full(tcx, term.source_info.span)));
         if let Some(m) = expn_str(term.source_info.span) {
             t.put("expn", J::Str(m));
         }
